@@ -134,15 +134,15 @@ def required_missing(eng, rep, topo, pub, req, ks):
             pipe.start()
             step_until(pipe, lambda p: False, k)
             pipe.kill(req, True)
-            n0 = len([e for e in w.events if e[0] == 'pub'])
-            t_end = w.now_ns + (topo.conn_ticks + 10) * POLL_NS
-            step_until(pipe, lambda p: w.now_ns >= t_end, 5000)
+            t_kill = w.now_ns
+            t_end = t_kill + (topo.conn_ticks + 10) * POLL_NS
+            # the dead consumer's client entry may still hold one request (one more publish, possibly one already under way);
+            # beyond that nothing may be published until the required output is back - neither before nor after its client
+            # entry times out, however eagerly the other consumers request
             plog = observers.PubLog(topo)
             plog.feed(w.events)
-            # after the required client has timed out (conn timeout) nothing more may be published until it is back
-            t_quiet = t_end - 5 * POLL_NS
-            late = [e for e in w.events if e[0] == 'pub' and e[1].split('/')[0] == pub]
             nbefore = len(plog.recs)
+            step_until(pipe, lambda p: w.now_ns >= t_end, 5000)
             step_until(pipe, lambda p: w.now_ns >= t_end + 10 * POLL_NS, 5000)
             plog.feed(w.events)
             nmid = len(plog.recs)
@@ -154,9 +154,9 @@ def required_missing(eng, rep, topo, pub, req, ks):
             how = {'kind': 'fault', 'topo': topo.name, 'k': k, 'victim': req, 'seed': eng.ctx.seed,
                    'origin': f'required output {req} of {pub} killed at step {k}, restarted later'}
             exhausted = pipe.oseq[pub] > topo.maxseq
-            if nmid > nbefore:
+            if nmid > nbefore + 2:
                 rep.violation(f'C06_RequiredWaits: {pub} published {nmid - nbefore} frame(s) while its required output {req} was '
-                              f'missing (after the connection timeout)  [{topo.name}, step {k}]', {'how': how},
+                              f'missing  [{topo.name}, step {k}]', {'how': how},
                               {'formula': 'C06_RequiredWaits', 'topology': topo.name})
             if not exhausted and len(pipe.delivered[req]) <= mark:
                 rep.violation(f'C06_Heals: {pub} did not resume after its required output {req} came back  [{topo.name}, step {k}]',
@@ -213,6 +213,13 @@ def run(ctx):
     nonrequired_death(eng, rep, te, 'B', 'A', ks[::2] if q else ks)
     rq = topos.required2(maxseq=60, conn_ticks=5)
     required_missing(eng, rep, rq, 'S', 'K', ks[::3] if q else ks)
+    # the same with another (non-required) consumer that keeps requesting while the required one is gone
+    rt = topos.required_tee(maxseq=60, conn_ticks=5)
+    required_missing(eng, rep, rt, 'S', 'B', ks[::3] if q else ks)
+    # a relay that listens with '?' numbers its own output: restarted late in the stream it must catch up with the ids its
+    # consumer already holds at once (fast-forward through MQ.send -> recv_state), not one id per frame of a slow producer
+    er = topos.eph_relay(maxseq=80, conn_ticks=5)
+    worst = max(worst, enumerate_faults(eng, rep, er, ['D'], [200, 260, 330] if q else list(range(120, 400, 20)), (0, 8)))
     rep.extra['worst_heal_time_ms'] = worst // 1_000_000
     rep.note(f'longest observed time from restart to the first new frame at a live sink: {worst // 1_000_000} ms virtual')
     return rep.finish()
